@@ -8,7 +8,8 @@ package main
 //                 (every k in 1..m, m in 1..4), optionally followed by more contents;
 //   - "late":     a record whose content passes its validator and fails in apply after it has begun to mutate the copy
 //                 (RequestRemove by a Guest);
-//   - "mut:*":    a raw-record mutation of the acceptable next record (signature, CID, prev, truncation, ...);
+//   - "mut:*":    a raw-record mutation of the acceptable next record (signature, CID, prev, truncation, ..., and
+//                 "cid_alias": bytes and signatures untouched, id = another spelling of the same digest);
 //   - "invalid":  a record the client builder's preflight check refused at this position.
 // BAD sits at every position of the batch (first new record, after 1..4 new valid records, last, followed by valid
 // continuation records, preceded by records the replica already has).  After the call the batch replica is compared with
@@ -29,7 +30,8 @@ import (
 )
 
 var batchMuts = []string{"flip_keep_id", "flip_payload_new_id", "flip_sig_new_id", "wrong_id", "resign_other", "prev_older",
-	"prev_bogus", "trunc_keep_id", "trunc_new_id", "swap_sig", "skip_ahead", "empty_payload", "flip_data_resigned_by_other", "dup"}
+	"prev_bogus", "trunc_keep_id", "trunc_new_id", "swap_sig", "skip_ahead", "empty_payload", "flip_data_resigned_by_other", "dup",
+	"cid_alias", "cid_alias", "cid_alias", "cid_alias"}
 
 type batchItem struct {
 	rec  *RawRec
